@@ -9,6 +9,15 @@ Observed:  {"upper": str.upper(s),
                      FlatColumn(name="c", type=s) attributes, DataFrame.description of a frame with that column,
                      and back = from_name(type_code) in the "name" format}
 ty = ["member", NAME] | ["zero"] | ["other", repr]
+
+Round 2, second case shape (stream "frame"): a whole frame of declared columns
+Case:      {"frame": [[column name, type name candidate], ...]}
+Observed:  {"cols":  [{"n": column name, "s": type name, "upper", "ext", "name": from_name(s) as above,
+                       "col": ["raise", class] | ["ok", ty, length, precision, scale, element]}, ...]
+                     FlatColumn(name=n, type=s) for every entry; attributes are read AFTER the frame was described,
+            "calls": [["raise", what] | [[name, type_code, dprec, dscale, back], ...], ...]
+                     DataFrame(rows=[], schema=RelationSchema(columns=<those that did not raise>)).description,
+                     called twice on the same frame; back = from_name(type_code)}
 """
 import ast
 import os
@@ -29,7 +38,10 @@ LEVEL_TEXT = ("Machine-checked Coq theorems over the executable model: every wel
               "with the rendered parameters. Tables (members, aliases, blacklist, bounds, regex texts) are regenerated from /repo on every run. "
               "The model is tied to the code by evaluating it inside Coq on every string the implementation ran on: exhaustively all names and aliases "
               "in five case patterns, DECIMAL(p,s) over 0..45 x 0..45, VARCHAR[n]/BLOB[n] for n in 0..300 plus boundary widths, ARRAY<T> over every name and alias, "
-              "every ASCII character in each character-class position, plus random mutations, truncations and Unicode noise.")
+              "every ASCII character in each character-class position, plus random mutations, truncations and Unicode noise. "
+              "Whole frames (stream 'frame'): DataFrame.description is modelled as the loop over the schema with lookup by column name; proved: with distinct "
+              "column names every entry is a function of its own column alone and its type code resolves back, whatever the other columns are; tied to the code on "
+              "every ordered pair of 38 declared names, triples of same-base-type spellings, wide frames and random frames (description called twice per frame).")
 LEVEL_NOTE = ("Trusted: Coq kernel + vm_compute; the hand-written recognisers (validated against CPython's re on the extracted regex texts by the correspondence, "
               "not derived from the regex text); the AST reader in gen(); CPython str.upper / re character classes / int() on non-ASCII characters enter the "
               "correspondence as per-case oracle inputs (the model is evaluated with the interpreter's upper-cased string and the \\d/\\w/\\s membership and digit "
@@ -37,17 +49,22 @@ LEVEL_NOTE = ("Trusted: Coq kernel + vm_compute; the hand-written recognisers (v
               "No axioms (Print Assumptions: closed).")
 DESIGN_REF = "DESIGN.md section 8, C06"
 COQ_IMPORTS = "From Orso Require Import Base.C06_Defs Model.C06."
-COQ_CHECKS = {"name": "c06_check"}
-COQ_SHOW = {"name": "c06_show"}
+COQ_CHECKS = {"name": "c06_check", "frame": "c06_frame_check"}
+COQ_SHOW = {"name": "c06_show", "frame": "c06_frame_show"}
 RULE = ("strings handed to OrsoTypes.from_name, FlatColumn(type=...) and DataFrame.description; exhaustive: every member name and alias in upper, lower, "
         "capitalised and both alternating case patterns, DECIMAL(p,s) for (p,s) in 0..45 x 0..45, VARCHAR[n] and BLOB[n] for n in 0..300 and boundary widths "
         "(powers of two and ten, 4299/4300/4301-digit runs), ARRAY<T> for every name and alias T, every ASCII character in a digit / space / element position; "
         "random: character mutations, truncations, case flips, spacing, leading zeros, trailing garbage, nesting and Unicode noise on valid names; "
-        "a case is non-trivial when its upper-cased text starts with a type name or alias; distinct by the string")
+        "a case is non-trivial when its upper-cased text starts with a type name or alias; distinct by the string; "
+        "frames: lists of (column name, type name) - exhaustive: every ordered pair of all member names, aliases and 21 parameterised / bare / rejected spellings, "
+        "every ordered triple of 8 distinct DECIMAL / ARRAY spellings, the whole set in one frame in 3 orders, the empty frame, column-name schemes (case-only differences, "
+        "type names as column names, repeated names); random: 1-9 columns, one or two base types repeated with fresh parameters, re-cased, malformed and non-ASCII "
+        "neighbours; a frame is non-trivial when at least two of its columns were constructed; distinct by the list")
 TRUSTED = [
     "C06 model (coq/Model/C06.v): recognisers for the four regular expressions with prefix-match semantics (greedy runs; no backtracking is needed because each run is "
     "followed by a character outside its class), str.upper on ASCII, int() as positional decimal with CPython's digit-count limit, from_name's decision tree "
-    "interpreted from regenerated rule tables, FlatColumn's parameter copy with the DECIMAL defaults, description's type-code rendering",
+    "interpreted from regenerated rule tables, FlatColumn's parameter copy with the DECIMAL defaults, description's type-code rendering, "
+    "description's loop over the schema with RelationSchema.find_column's first-match lookup by name (hand-written, not regenerated from the AST)",
     "gen(): reads OrsoTypes.__members__ from the imported module and the regex texts, the if/elif chain of from_name, the startswith tuple and the DECIMAL guards from "
     "the AST of orso/types.py; refuses any shape it does not recognise; asserts the regex texts are the four the recognisers were written for",
     "modelled, not verified: CPython re / str.upper / int; for non-ASCII input their behaviour is supplied per case by the running interpreter",
@@ -56,6 +73,8 @@ ASSUMPTIONS = [
     "inputs are Python str objects (from_name(None) and non-str names are outside the property)",
     "VARCHAR[n]/BLOB[n] round trip is stated for n whose decimal rendering has at most sys.get_int_max_str_digits() = 4300 digits (longer runs are rejected with ValueError by int())",
     "type-code round trip is stated for types whose enum value equals their name (all but the placeholder _MISSING_TYPE, value '0', cf. F-C16-4b)",
+    "frames: the per-column statements are for frames whose column names are distinct (DataFrame.description looks columns up by name; under a repeated name it "
+    "reports the first column of that name for each of them - modelled and compared, C06_description_first_match, but not demanded by the oracle)",
 ]
 KNOWN_WITNESSES = {}
 
@@ -513,25 +532,82 @@ def _resolve(s):
     return ["ok", _ty(r[0]), _num(r[1]), _num(r[2]), _num(r[3]), _elt(r[4])]
 
 
+def _ext_of(up):
+    """[[code point, digit value|None, is \\w, is \\s], ...] for the non-ASCII characters of an upper-cased string"""
+    ext = []
+    for ch in sorted(set(c for c in up if ord(c) >= 128)):
+        isd = re.fullmatch(r"\d", ch) is not None
+        dv = None
+        if isd:
+            try:
+                dv = int(ch)
+            except ValueError:
+                dv = -1
+        ext.append([ord(ch), dv, re.fullmatch(r"\w", ch) is not None, re.fullmatch(r"\s", ch) is not None])
+    return ext
+
+
+def _observe_frame(case):
+    """A whole frame: every declared column, then DataFrame.description of the frame built from the columns
+    whose constructor did not raise - called twice on the same frame; column attributes are read afterwards."""
+    from orso.dataframe import DataFrame
+    from orso.schema import FlatColumn, RelationSchema
+
+    cols = []
+    built = []
+    with warnings.catch_warnings():
+        warnings.simplefilter("ignore")
+        for n, s in case["frame"]:
+            up = s.upper()
+            entry = {"n": n, "s": s, "upper": up, "ext": _ext_of(up), "name": _resolve(s)}
+            try:
+                col = FlatColumn(name=n, type=s)
+            except Exception as e:
+                entry["col"] = ["raise", type(e).__name__]
+            else:
+                entry["col"] = None
+                built.append((entry, col))
+            cols.append(entry)
+        calls = []
+        try:
+            df = DataFrame(rows=[], schema=RelationSchema(name="t", columns=[c for _, c in built]))
+        except Exception as e:
+            df = None
+            calls = [["raise", "frame:" + type(e).__name__]] * 2
+        if df is not None:
+            for _ in range(2):
+                try:
+                    d = df.description
+                    if not isinstance(d, (list, tuple)):
+                        raise TypeError("description is not a list")
+                    entries = []
+                    for row in d:
+                        if not (isinstance(row, tuple) and len(row) == 7):
+                            raise TypeError("description entry is not a 7-tuple")
+                        nm, code, dprec, dscale = row[0], row[1], row[4], row[5]
+                        back = _resolve(code) if isinstance(code, str) else ["raise", "not-a-string"]
+                        entries.append([nm if isinstance(nm, str) else ["other", repr(nm)[:60]],
+                                        code if isinstance(code, str) else ["other", repr(code)[:60]], _num(dprec), _num(dscale), back])
+                    calls.append(entries)
+                except Exception as e:
+                    calls.append(["raise", "description:" + type(e).__name__])
+        for entry, col in built:
+            entry["col"] = ["ok", _ty(col.type), _num(col.length), _num(col.precision), _num(col.scale), _elt(col.element_type)]
+    return {"cols": cols, "calls": calls}
+
+
 def observe(case):
     from orso.dataframe import DataFrame
     from orso.schema import FlatColumn, RelationSchema
 
+    if "frame" in case:
+        return _observe_frame(case)
     s = case["s"]
     F = _facts()
     with warnings.catch_warnings():
         warnings.simplefilter("ignore")
         up = s.upper()
-        ext = []
-        for ch in sorted(set(c for c in up if ord(c) >= 128)):
-            isd = re.fullmatch(r"\d", ch) is not None
-            dv = None
-            if isd:
-                try:
-                    dv = int(ch)
-                except ValueError:
-                    dv = -1
-            ext.append([ord(ch), dv, re.fullmatch(r"\w", ch) is not None, re.fullmatch(r"\s", ch) is not None])
+        ext = _ext_of(up)
         rx = []
         for r in F["rxc"]:
             m = r.match(up)
@@ -635,11 +711,9 @@ def _spec(s, F):
     return None
 
 
-def oracle(case, obs):
-    F = _facts()
-    s = case["s"]
+def _oracle_name(s, name, F):
+    """parts 1 and 2 of the property for one string and what from_name did with it"""
     members = F["members"]
-    name, col = obs["name"], obs["col"]
     # 1. any string: a well-formed description or ValueError, nothing else
     if name[0] == "raise":
         if name[1] != "ValueError":
@@ -660,36 +734,93 @@ def oracle(case, obs):
         if spec is not None and spec[0] == "reject":
             if name != ["raise", "ValueError"]:
                 return f"from_name({s!r}) must be rejected with ValueError ({spec[1]}), got {name}"
-    else:
-        spec = None
-    # 3. a column declared with the name carries the parameters
+    return None
+
+
+def _oracle_carries(s, name, col):
+    """part 3: a column declared with the name carries the parameters.  col = ["raise", class] | ["ok", ty, len, prec, scale, elt, ...]"""
     if name[0] == "raise":
         if col[0] != "raise" or col[1] != name[1]:
             return f"FlatColumn(type={s!r}): from_name rejects the name with {name[1]} but the column constructor answered {col[:2]}"
         return None
     if col[0] == "raise":
         return f"FlatColumn(type={s!r}) / DataFrame.description raised {col[1]} although the name resolves to {name[1:]}"
-    cty, cln, cpr, csc, cel, code, dpr, dsc, back = col[1:]
+    cty, cln, cpr, csc, cel = col[1:6]
     if cty != name[1]:
         return f"FlatColumn(type={s!r}).type is {cty}, the name resolves to {name[1]}"
     if name[1][0] == "member":
         for what, have, want in (("length", cln, name[2]), ("precision", cpr, name[3]), ("scale", csc, name[4]), ("element_type", cel, name[5])):
             if want is not None and have != want:
                 return f"FlatColumn(type={s!r}).{what} is {have}, the name carries {want}"
-    # 4. the reported type code resolves back to the same type (with the parameters it renders)
+    return None
+
+
+def _oracle_code(s, name, col, code, dpr, dsc, back, where=""):
+    """part 4: the reported type code resolves back to the same type (with the parameters it renders)"""
+    cty, cln, cpr, csc, cel = col[1:6]
     proper = name[1][0] == "member" and name[1][1] != "_MISSING_TYPE" and cel != "_MISSING_TYPE"
     if proper:
         if not isinstance(code, str):
-            return f"description of a column declared {s!r} reports type code {code}"
+            return f"description of a column declared {s!r}{where} reports type code {code}"
         if back[0] != "ok" or back[1] != cty:
-            return f"type code {code!r} reported for a column declared {s!r} resolves to {back}, not back to {cty}"
+            return f"type code {code!r} reported for a column declared {s!r}{where} resolves to {back}, not back to {cty}"
         if cty[1] == "DECIMAL" and (back[3], back[4]) != (cpr, csc):
-            return f"type code {code!r} resolves to precision/scale {back[3:5]}, the column has {(cpr, csc)}"
+            return f"type code {code!r}{where} resolves to precision/scale {back[3:5]}, the column has {(cpr, csc)}"
         if cty[1] == "DECIMAL" and (dpr, dsc) != (cpr, csc):
-            return f"description reports precision/scale {(dpr, dsc)}, the column has {(cpr, csc)}"
+            return f"description{where} reports precision/scale {(dpr, dsc)}, the column has {(cpr, csc)}"
         if cty[1] == "ARRAY" and cel is not None and back[5] != cel:
-            return f"type code {code!r} resolves to element type {back[5]}, the column has {cel}"
+            return f"type code {code!r}{where} resolves to element type {back[5]}, the column has {cel}"
     return None
+
+
+def _oracle_frame(case, obs):
+    """The property for every column of one frame: the statement is per column ("a column declared with the name carries
+    them, and the type code a DataFrame reports for the column resolves back to the same type"), so it must hold for each
+    column whatever else the frame contains, and for every call of .description."""
+    F = _facts()
+    decl = [s for _, s in case["frame"]]
+    cols = obs["cols"]
+    for c in cols:
+        why = _oracle_name(c["s"], c["name"], F)
+        if why:
+            return why
+        why = _oracle_carries(c["s"], c["name"], c["col"])
+        if why:
+            return why + f" (column {c['n']!r} of a frame declared {decl})"
+    built = [c for c in cols if c["col"][0] == "ok"]
+    names = [c["n"] for c in built]
+    for k, call in enumerate(obs["calls"]):
+        which = "" if k == 0 else " (second call on the same frame)"
+        if call and call[0] == "raise":
+            return f"DataFrame.description{which} of a frame declared {decl} failed: {call[1]}"
+        if len(call) != len(built):
+            return f"DataFrame.description{which} of a frame of {len(built)} columns declared {decl} has {len(call)} entries"
+        if [e[0] for e in call] != names:
+            return f"DataFrame.description{which} of a frame with columns {names} lists the columns {[e[0] for e in call]}"
+        if len(set(names)) != len(names):
+            continue  # repeated column names: 'the column' of a name is not defined; nothing further is demanded
+        for c, e in zip(built, call):
+            where = f" (column {c['n']!r} of a frame declared {decl}{which})"
+            why = _oracle_code(c["s"], c["name"], c["col"], e[1], e[2], e[3], e[4], where)
+            if why:
+                return why
+    return None
+
+
+def oracle(case, obs):
+    if "frame" in case:
+        return _oracle_frame(case, obs)
+    F = _facts()
+    s = case["s"]
+    name, col = obs["name"], obs["col"]
+    why = _oracle_name(s, name, F)
+    if why:
+        return why
+    why = _oracle_carries(s, name, col)
+    if why or name[0] == "raise":
+        return why
+    cty, cln, cpr, csc, cel, code, dpr, dsc, back = col[1:]
+    return _oracle_code(s, name, col, code, dpr, dsc, back)
 
 
 # ------------------------------------------------------------------------------------------
@@ -760,7 +891,36 @@ def _c_result(r):
     return "(Ok %s)" % _c_descr(*r[1:])
 
 
+def _c_ext(ext):
+    return L.lst("(%s, (%s, %s, %s))" % (L.N(cp), L.opt(None if dv is None or dv < 0 else L.N(dv)), L.boolean(w), L.boolean(sp))
+                 for cp, dv, w, sp in ext)
+
+
+def _frame_to_coq(case, obs):
+    cols = []
+    for c in obs["cols"]:
+        ci = "(%s, %s, %s, %s)" % (_c_text(c["n"]), _c_text(c["s"]), _c_text(c["upper"]), _c_ext(c["ext"]))
+        col = c["col"]
+        r = "(Raise %s)" % _c_exn(col[1]) if col[0] == "raise" else "(Ok %s)" % _c_descr(*col[1:6])
+        cols.append("(%s, %s)" % (ci, r))
+    calls = []
+    for call in obs["calls"]:
+        if call and call[0] == "raise":
+            calls.append("None")
+            continue
+        ents = []
+        for nm, code, dpr, dsc, back in call:
+            if isinstance(nm, list) or isinstance(code, list) or _bad(dpr, dsc):
+                ents = None
+                break
+            ents.append("((%s, %s, %s, %s), %s)" % (_c_text(nm), _c_text(code), _c_optN(dpr), _c_optN(dsc), _c_result(back)))
+        calls.append("None" if ents is None else "(Some %s)" % L.lst(ents))
+    return ("frame", "((%s, %s) : frame_case)" % (L.lst(cols), L.lst(calls)))
+
+
 def to_coq(case, obs):
+    if "frame" in case:
+        return _frame_to_coq(case, obs)
     s = case["s"]
     ext = L.lst("(%s, (%s, %s, %s))" % (L.N(cp), L.opt(None if dv is None or dv < 0 else L.N(dv)), L.boolean(w), L.boolean(sp))
                 for cp, dv, w, sp in obs["ext"])
@@ -796,8 +956,16 @@ def _form(u):
     return "plain"
 
 
+def _base_of(c):
+    col = c["col"]
+    return col[1][1] if col[0] == "ok" and col[1][0] == "member" else None
+
+
 def nontrivial_key(case, obs):
     F = _facts()
+    if "frame" in case:  # non-trivial: at least two columns were constructed
+        built = [c for c in obs["cols"] if c["col"][0] == "ok"]
+        return ("frame", tuple((n, s) for n, s in case["frame"])) if len(built) >= 2 else None
     u = obs["upper"]
     if any(u.startswith(n) for n in F["members"]) or any(u.startswith(a) for a in F["aliases"]):
         return case["s"]
@@ -805,6 +973,31 @@ def nontrivial_key(case, obs):
 
 
 def classify(case, obs):
+    if "frame" in case:
+        cols = obs["cols"]
+        built = [c for c in cols if c["col"][0] == "ok"]
+        k = len(built)
+        yield "frame:%s-columns" % (k if k <= 3 else ("4-8" if k <= 8 else ">8"))
+        bases = [_base_of(c) for c in built]
+        rep = [b for b in set(bases) if b is not None and bases.count(b) > 1]
+        if rep:
+            yield "frame:base-type-repeated"
+            params = set()
+            for c in built:
+                if _base_of(c) in rep:
+                    params.add(tuple(str(x) for x in c["col"][1:6]))
+            if len(params) > len(rep):
+                yield "frame:same-base-different-parameters"
+        if len(built) < len(cols):
+            yield "frame:has-rejected-column"
+        names = [c["n"] for c in built]
+        if len(set(names)) != len(names):
+            yield "frame:repeated-column-name"
+        elif len(set(n.lower() for n in names)) != len(names):
+            yield "frame:names-differ-in-case-only"
+        if any(not c["s"].isascii() for c in cols):
+            yield "frame:non-ascii"
+        return
     s = case["s"]
     yield "ascii" if s.isascii() else "non-ascii"
     yield _form(obs["upper"])
@@ -853,6 +1046,70 @@ BOUNDARY = sorted(set(
     + [301, 999, 1000, 65535, 65536]))
 
 
+# ---- whole frames -------------------------------------------------------------------------
+# parameterised and bare spellings put next to each other in one frame (several per base type, so that every
+# ordered pair / triple below contains same-base-type-different-parameter neighbours), plus two rejected names
+FRAME_PARAM = ["DECIMAL(10,2)", "DECIMAL(5,1)", "decimal(38,38)", "DECIMAL(38,0)", "Decimal(1, 0)", "DECIMAL(0,0)", "DECIMAL",
+               "ARRAY<INTEGER>", "ARRAY<VARCHAR>", "array<date>", "ARRAY<BLOB>", "ARRAY", "LIST",
+               "VARCHAR[12]", "varchar[5]", "VARCHAR", "BLOB[3]", "BLOB[300]", "BLOB",
+               "DECIMAL(5,6)", "ARRAY<ARRAY>"]
+FRAME_TRIPLE = ["DECIMAL(10,2)", "DECIMAL(5,1)", "DECIMAL(38,38)", "DECIMAL",
+                "ARRAY<INTEGER>", "ARRAY<VARCHAR>", "ARRAY", "LIST"]
+
+
+def _frame(types, names=None):
+    return {"frame": [[("c%d" % i) if names is None else names[i], s] for i, s in enumerate(types)]}
+
+
+def _frame_core():
+    out = list(FRAME_PARAM)
+    for n in _all_names():
+        if n not in out:
+            out.append(n)
+    return out
+
+
+def _frames_exhaustive(tier):
+    core = _frame_core()
+    # every ordered pair (also x next to x) of the core: members, aliases, parameterised spellings
+    for a in core:
+        for b in core:
+            yield _frame([a, b])
+    # every ordered triple of distinct DECIMAL / ARRAY spellings (same base type three times, mixed)
+    for a in FRAME_TRIPLE:
+        for b in FRAME_TRIPLE:
+            for c in FRAME_TRIPLE:
+                if a != b and b != c and a != c:
+                    yield _frame([a, b, c])
+    # wide frames: the whole core in one frame, forwards, backwards and interleaved with itself
+    yield _frame(core)
+    yield _frame(core[::-1])
+    yield _frame([x for a, b in zip(core, core[::-1]) for x in (a, b)])
+    yield _frame([])
+    # column-name schemes on same-base-type neighbours: names differing in case only, names that are type names,
+    # and (model only, see oracle) a repeated name
+    for a, b in (("DECIMAL(10,2)", "DECIMAL(5,1)"), ("ARRAY<INTEGER>", "ARRAY<VARCHAR>"), ("INTEGER", "DECIMAL(7,3)"), ("VARCHAR[12]", "BLOB[3]")):
+        for names in (["a", "A"], ["col", "COL"], ["DECIMAL", "ARRAY"], ["ARRAY<INTEGER>", "DECIMAL(5,1)"], ["", " "], ["a", "a"], ["x", "X", "x"]):
+            ts = [a, b] if len(names) == 2 else [a, b, a]
+            yield _frame(ts, names)
+            yield _frame(ts[::-1], names)
+    if tier == "thorough":
+        grid = [0, 1, 2, 10, 28, 37, 38]
+        decs = ["DECIMAL(%d,%d)" % (p, s) for p in grid for s in grid if s <= p]
+        for a in decs:
+            for b in decs:
+                yield _frame([a, b])
+        elts = ["ARRAY<%s>" % n for n in _all_names()]
+        for a in elts:
+            for b in elts:
+                yield _frame([a, b.lower()])
+        tri = FRAME_PARAM[:19]
+        for a in tri:
+            for b in tri:
+                for c in tri:
+                    yield _frame([a, b, c])
+
+
 def exhaustive(tier):
     def it():
         names = _all_names()
@@ -883,6 +1140,7 @@ def exhaustive(tier):
             yield {"s": "VARCHAR[1%s]" % ch}
             yield {"s": "DECIMAL(12,%s3)" % ch}
             yield {"s": "ARRAY<DA%sTE>" % ch}
+        yield from _frames_exhaustive(tier)
         if tier == "thorough":
             for p in range(0, 46):
                 for s in range(0, 46):
@@ -909,7 +1167,10 @@ def exhaustive(tier):
     label = ("every member name and alias in 5 letter-case patterns; DECIMAL(p,s) for all (p,s) in 0..45 x 0..45; VARCHAR[n], BLOB[n] for n in 0..300 and "
              "%d boundary widths plus 4299/4300/4301-digit runs; ARRAY<T> for every name and alias T (upper and lower); each of the 128 ASCII characters in a "
              "digit, a space and an element position" % len(BOUNDARY))
+    label += ("; whole frames: every ordered pair of %d declared names (all members and aliases, %d parameterised / bare / rejected spellings), every ordered triple of "
+              "%d distinct DECIMAL and ARRAY spellings, the whole set in one frame (3 orders), the empty frame, 7 column-name schemes" % (len(_frame_core()), len(FRAME_PARAM), len(FRAME_TRIPLE)))
     if tier == "thorough":
+        label += "; frames: every ordered pair of DECIMAL(p,s) over a 7-value grid and of ARRAY<T> over all names, every ordered triple of 19 spellings"
         label += "; thorough: two further spellings of every DECIMAL(p,s), n in 0..3000, ARRAY<T> in 5 case patterns and with every ASCII character appended, 7 more character positions"
     return it(), label
 
@@ -1000,10 +1261,63 @@ def _random_case(rng):
     return {"s": s}
 
 
+def _same_family(rng):
+    """a type name of a parameterised family, parameters drawn afresh each time"""
+    fam = rng.choice(["DECIMAL", "DECIMAL", "ARRAY", "ARRAY", "VARCHAR", "BLOB"])
+    if fam == "DECIMAL":
+        if rng.random() < 0.1:
+            return "DECIMAL"
+        p = rng.randint(0, 38)
+        return "DECIMAL(%d,%s%d)" % (p, rng.choice(["", "", " "]), rng.randint(0, p))
+    if fam == "ARRAY":
+        return rng.choice(["ARRAY<%s>" % rng.choice(_facts()["members"]), "ARRAY", "LIST"])
+    return rng.choice(["%s[%d]" % (fam, rng.choice([0, 1, 12, 255, 65536, rng.randint(0, 10 ** 6)])), fam])
+
+
+def _random_frame(rng):
+    k = rng.choice([1, 2, 2, 2, 3, 3, 4, 5, 6, 8])
+    mode = rng.random()
+    types = []
+    if mode < 0.45:      # one or two families repeated with different parameters, a few bystanders
+        fams = [_same_family(rng).split("(")[0].split("<")[0].split("[")[0].upper() for _ in range(rng.choice([1, 1, 2]))]
+        for _ in range(k):
+            if rng.random() < 0.2:
+                types.append(rng.choice(_all_names()))
+            else:
+                for _try in range(20):
+                    s = _same_family(rng)
+                    if any(s.upper().startswith(f) or (f == "ARRAY" and s == "LIST") for f in fams):
+                        break
+                types.append(s)
+    elif mode < 0.85:    # anything valid-ish, re-cased
+        types = [_recase(rng, _valid(rng)) for _ in range(k)]
+    else:                # with malformed / non-ASCII neighbours
+        types = [_random_case(rng)["s"] if rng.random() < 0.5 else _same_family(rng) for _ in range(k)]
+    if mode < 0.85 and rng.random() < 0.5:
+        types = [_recase(rng, s) for s in types]
+    if rng.random() < 0.3 and types:   # the same spelling twice somewhere in the frame
+        types.insert(rng.randint(0, len(types)), rng.choice(types))
+    nm = rng.random()
+    if nm < 0.6:
+        names = ["c%d" % i for i in range(len(types))]
+    elif nm < 0.75:
+        names = [("col" if i % 2 == 0 else "COL") + str(i // 2) for i in range(len(types))]
+    elif nm < 0.9:
+        pool = ["id", "ID", "Id", "value", "VALUE", "DECIMAL", "decimal", "ARRAY", "type", "a", "A", "b", "B", "_", "x y"]
+        rng.shuffle(pool)
+        names = pool[:len(types)]
+    else:
+        names = [rng.choice(["a", "b", "A"]) for _ in types]   # repeated names likely
+    return _frame(types, names)
+
+
 def generate(rng, tier):
     count = 800 if tier == "quick" else 16000
     for _ in range(count):
         yield _random_case(rng)
+    # frames are drawn after the strings so that the string stream of a given seed is the one of round 1
+    for _ in range(250 if tier == "quick" else 5000):
+        yield _random_frame(rng)
 
 
 def search(rng):
@@ -1011,6 +1325,9 @@ def search(rng):
     while True:
         if names is None:
             names = _all_names()
+        if rng.random() < 0.4:
+            yield _random_frame(rng)
+            continue
         k = rng.random()
         if k < 0.2:
             yield {"s": _recase(rng, rng.choice(names))}
@@ -1023,6 +1340,17 @@ def search(rng):
 
 
 def shrink(case):
+    if "frame" in case:
+        fr = case["frame"]
+        for i in range(len(fr)):
+            if len(fr) > 1:
+                yield {"frame": fr[:i] + fr[i + 1:]}
+        for i, (n, s) in enumerate(fr):
+            if s != s.upper():
+                yield {"frame": fr[:i] + [[n, s.upper()]] + fr[i + 1:]}
+            if n != "c%d" % i:
+                yield {"frame": fr[:i] + [["c%d" % i, s]] + fr[i + 1:]}
+        return
     s = case["s"]
     for i in range(len(s)):
         yield {"s": s[:i] + s[i + 1:]}
